@@ -479,6 +479,7 @@ def check_purity(rep, repo, f):
             mutable_globals[n.targets[0].id] = n.lineno
     todo, seen = [f], set()
     bad = []
+    reads = []
     while todo:
         g = todo.pop()
         if g in seen:
@@ -493,19 +494,125 @@ def check_purity(rep, repo, f):
                         locals_.add(t.id)
         for n in ast.walk(g.node):
             if isinstance(n, ast.Name) and isinstance(n.ctx, ast.Load) and n.id in mutable_globals and n.id not in locals_:
-                bad.append('%s:%d reads module-level mutable %s' % (g.relpath, n.lineno, n.id))
+                reads.append((g, n))
             if isinstance(n, ast.Global):
                 bad.append('%s:%d declares global %s' % (g.relpath, n.lineno, ', '.join(n.names)))
             if isinstance(n, ast.Call) and isinstance(n.func, ast.Name):
                 for c in repo.funcs_by_name.get(n.func.id, []):
                     if c.relpath.startswith(repo.rel('generator')):
                         todo.append(c)
-            if isinstance(n, ast.FunctionDef) and n is not g.node:
-                pass
         for d in g.node.decorator_list:
             bad.append('%s:%d decorated with %s (memoisation changes what later calls see)' % (g.relpath, g.node.lineno, ast.unparse(d)))
+    unproved = []
+    if reads and not bad:
+        m_bad, unproved = _memo_discipline(seen, {n.id for _, n in reads})
+        bad.extend(m_bad)
+    if unproved and not bad:
+        rep.inconclusive('C17.R4', f.where, 'a module-level container read by the weight computation is a pure memo table (keyed by everything the cached value depends on, cached objects never updated in place)', got='; '.join(unproved[:3])[:300])
+        return
     rep.check(not bad, 'C17.R4', f.where, 'the weights are a function of (n, s) only (%d functions in the slice)' % len(seen), got=bad[:3], want='no shared mutable state',
               construct='shared state: ' + '; '.join(sorted(set(b.split(' ', 1)[1] for b in bad)))[:160])
+
+
+_INPLACE_METHODS = {'append', 'extend', 'insert', 'pop', 'remove', 'sort', 'reverse', 'clear', 'fill', 'resize', 'put', 'itemset', 'update', 'setdefault', 'popitem', 'add', 'discard', 'partition', 'setfield', 'setflags', 'byteswap'}
+
+
+def _memo_discipline(funcs, tables):
+    """A module-level container M read by the weight computation is harmless exactly when it is a memo table: the only
+    accesses are `M[k]`, `M.get(k[, c])`, `k in M` and the insertion `M[k] = v`; the inserted value is computed from the
+    key alone; and no name that may refer to a cached object (bound from `M[k]` / `M.get(k)` / a call of a function that
+    returns such a name, or the inserted name itself) is updated in place.  Returns (violations, not-proved)."""
+    bad, unproved = [], []
+    parent = {}
+    for g in funcs:
+        for n in ast.walk(g.node):
+            for c in ast.iter_child_nodes(n):
+                parent[c] = n
+
+    def is_table(e):
+        return isinstance(e, ast.Name) and e.id in tables
+
+    def table_read(e):      # an expression whose value is an object stored in a table
+        if isinstance(e, ast.Subscript) and is_table(e.value):
+            return True
+        if isinstance(e, ast.Call) and isinstance(e.func, ast.Attribute) and is_table(e.func.value) and e.func.attr == 'get':
+            return True
+        return False
+
+    sources = set()         # names of functions that may return a cached object
+    aliases = {}            # function -> local names that may refer to a cached object
+    for _ in range(4):
+        for g in funcs:
+            al = aliases.setdefault(g, set())
+            for n in ast.walk(g.node):
+                if isinstance(n, ast.Assign) and len(n.targets) == 1:
+                    t, v = n.targets[0], n.value
+                    if isinstance(t, ast.Name) and (table_read(v) or (isinstance(v, ast.Name) and v.id in al)
+                                                   or (isinstance(v, ast.Call) and isinstance(v.func, ast.Name) and v.func.id in sources)):
+                        al.add(t.id)
+                    if isinstance(t, ast.Subscript) and is_table(t.value) and isinstance(v, ast.Name):
+                        al.add(v.id)
+                if isinstance(n, ast.Return) and n.value is not None and ((isinstance(n.value, ast.Name) and n.value.id in al) or table_read(n.value)):
+                    sources.add(g.node.name)
+    for g in funcs:
+        al = aliases.get(g, set())
+        params = {a.arg for a in g.node.args.args + g.node.args.kwonlyargs}
+        for n in ast.walk(g.node):
+            w = '%s:%d' % (g.relpath, getattr(n, 'lineno', 0))
+            if isinstance(n, ast.AugAssign):
+                t = n.target
+                base = t.value if isinstance(t, ast.Subscript) else t
+                if isinstance(base, ast.Name) and base.id in al:
+                    bad.append('%s updates in place (%s) an object kept in a module-level table: later calls see the changed object' % (w, ast.unparse(n)[:60]))
+            if isinstance(n, ast.Assign):
+                for t in n.targets:
+                    if isinstance(t, ast.Subscript) and isinstance(t.value, ast.Name) and t.value.id in al:
+                        bad.append('%s stores into an object kept in a module-level table (%s)' % (w, ast.unparse(n)[:60]))
+            if isinstance(n, ast.Call):
+                fn = n.func
+                if isinstance(fn, ast.Attribute) and isinstance(fn.value, ast.Name) and fn.value.id in al and fn.attr in _INPLACE_METHODS:
+                    bad.append('%s calls %s() on an object kept in a module-level table' % (w, fn.attr))
+                if (isinstance(fn, ast.Attribute) and fn.attr == 'shuffle') or (isinstance(fn, ast.Name) and fn.id == 'shuffle'):
+                    if any(isinstance(a, ast.Name) and a.id in al for a in n.args):
+                        bad.append('%s shuffles in place an object kept in a module-level table' % w)
+                for k in n.keywords:
+                    if k.arg == 'out' and isinstance(k.value, ast.Name) and k.value.id in al:
+                        bad.append('%s writes its result into an object kept in a module-level table (out=%s)' % (w, k.value.id))
+            if is_table(n) and isinstance(n.ctx, ast.Load):
+                p = parent.get(n)
+                ok = False
+                if isinstance(p, ast.Subscript) and p.value is n:
+                    ok = True
+                    if isinstance(p.ctx, ast.Del):
+                        ok = False
+                    if isinstance(p.ctx, ast.Store):
+                        pp = parent.get(p)
+                        if isinstance(pp, ast.Assign) and len(pp.targets) == 1:
+                            keys = {x.id for x in ast.walk(p.slice) if isinstance(x, ast.Name)}
+                            v = pp.value
+                            defs = [a.value for a in ast.walk(g.node) if isinstance(a, ast.Assign) and len(a.targets) == 1 and isinstance(a.targets[0], ast.Name)
+                                    and isinstance(v, ast.Name) and a.targets[0].id == v.id] if isinstance(v, ast.Name) else [v]
+                            for d in defs:
+                                if table_read(d):
+                                    continue
+                                used = {x.id for x in ast.walk(d) if isinstance(x, ast.Name) and isinstance(x.ctx, ast.Load)}
+                                extra = (used & params) - keys
+                                local_extra = {u for u in used - keys - params if any(isinstance(a, (ast.Assign, ast.AugAssign, ast.For)) and u in {y.id for y in ast.walk(a.targets[0] if isinstance(a, ast.Assign) else a.target) if isinstance(y, ast.Name)} for a in ast.walk(g.node))}
+                                if extra:
+                                    bad.append('%s caches under key (%s) a value that also depends on parameter %s: a later call with another %s gets the stale value' % (w, ', '.join(sorted(keys)), ', '.join(sorted(extra)), ', '.join(sorted(extra))))
+                                elif local_extra:
+                                    unproved.append('%s cached value depends on local %s' % (w, ', '.join(sorted(local_extra))))
+                            if not defs:
+                                unproved.append('%s inserted value has no visible definition' % w)
+                        else:
+                            ok = False
+                elif isinstance(p, ast.Attribute) and p.attr == 'get' and isinstance(parent.get(p), ast.Call) and parent.get(p).func is p:
+                    ok = True
+                elif isinstance(p, ast.Compare) and n in p.comparators and all(isinstance(o, (ast.In, ast.NotIn)) for o in p.ops):
+                    ok = True
+                if not ok:
+                    unproved.append('%s uses the module-level table %s other than as a memo (%s)' % (w, n.id, ast.unparse(p)[:50] if p is not None else '?'))
+    return bad, unproved
 
 
 def check_use(rep, repo, f):
@@ -609,5 +716,14 @@ def check_use(rep, repo, f):
         ok = pop is not None and pop[0] == 'call' and show(pop[1]) == 'np.arange' and len(pop[2]) == 2 and pop[2][0] == C(1) and pop[2][1] == BIN('Add', n2, C(1))
         if not ok and t in via_perm and pop == n2:
             ok = True                 # positions 0..n-1 of an array holding the agents 1..n
+        if not ok and pop is not None:
+            # a population read out of a module-level memo table: what it holds is R4's business (memo discipline), its value is not modelled here
+            tables = {x.targets[0].id for x in repo.trees[g.relpath].body if isinstance(x, ast.Assign) and len(x.targets) == 1 and isinstance(x.targets[0], ast.Name)
+                      and isinstance(x.value, (ast.Dict, ast.List, ast.Set, ast.Call))}
+            import re as _re
+            hit = sorted(tb for tb in tables if _re.search(r'(?<![A-Za-z0-9_])%s(?![A-Za-z0-9_])' % _re.escape(tb), show(pop)))
+            if hit:
+                rep.inconclusive('C17.R5', g.where, 'the population of the weighted draw is a term the check can evaluate', got='read from the module-level table %s: %s' % (', '.join(hit), show(pop)[:100]))
+                continue
         rep.check(ok, 'C17.R5', g.where, 'the population weighted is exactly the n agents 1..n (one weight per agent)', got=show(pop)[:100] if pop is not None else None, want='np.arange(1, n2 + 1)',
                   construct='population %s' % (show(pop)[:60] if pop is not None else None), loc=e.loc)
